@@ -359,3 +359,160 @@ Proof.
       destruct (Z.leb_spec (-0x8000) z); destruct (Z.leb_spec (-0x80000000) z); try lia;
       cbn [andb length]; rewrite be_bytes_length; reflexivity.
 Qed.
+
+(* ------------------------------------------------------------------------------------- *)
+(* finite sweeps over a range of Z *)
+
+Fixpoint zall (n : nat) (lo : Z) (f : Z -> bool) : bool :=
+  match n with
+  | O => true
+  | S n' => f lo && zall n' (lo + 1) f
+  end.
+
+Lemma zall_spec : forall n lo f, zall n lo f = true ->
+  forall z, lo <= z < lo + Z.of_nat n -> f z = true.
+Proof.
+  induction n as [|n IH]; intros lo f H z Hz.
+  - cbn in Hz. lia.
+  - cbn [zall] in H. apply andb_prop in H as [H0 H1].
+    destruct (Z.eq_dec z lo) as [->|Hne]; [exact H0|].
+    apply (IH (lo + 1) f H1). lia.
+Qed.
+
+(* the codes that reach mp_tail *)
+Definition early (c : Z) : bool :=
+  ((0xCC <=? c) && (c <=? 0xD3)) || (c =? 0xC0) || (c =? 0xC1) || ((c =? 0xC2) || (c =? 0xC3))
+  || (c =? 0xCA) || (c =? 0xCB) || ((c <=? 0x7F) || (0xE0 <=? c)).
+
+Lemma body_tail : forall cf pv' Lz f cb rest k, early (Z.of_N cb) = false ->
+  mp_body cf pv' Lz f (mk (cb :: rest) k) = mp_tail pv' Lz f cb (mk rest (k + 1)).
+Proof.
+  intros cf pv' Lz f cb rest k H. unfold early in H.
+  apply orb_false_elim in H as [H H7]. apply orb_false_elim in H as [H H6].
+  apply orb_false_elim in H as [H H5]. apply orb_false_elim in H as [H H4].
+  apply orb_false_elim in H as [H H3]. apply orb_false_elim in H as [H1 H2].
+  unfold mp_body. rewrite read_1_cons. cbv beta iota zeta.
+  rewrite H1, H2, H3, H4, H5, H6, H7. reflexivity.
+Qed.
+
+(* what a header announces *)
+Definition str_payload (size : Z) (r : mrd) : code * jv * mrd :=
+  if max_string_length <? size then (NoMemory, JNull, r)
+  else
+    match read_z size r with
+    | (Some s, r) => (Ok, JStr s, r)
+    | (None, r) => (IncompleteInput, JNull, r)
+    end.
+
+Definition arr_payload (pv' : pvT) (Lz : bool) (size : Z) (r : mrd) : code * jv * mrd :=
+  if Lz then (TooDeep, JNull, r)
+  else
+    let '(e, l, r) := mp_array_loop pv' (clip_count size r) None true [] r in
+    (e, JArr l, r).
+
+Definition map_payload (pv' : pvT) (Lz : bool) (size : Z) (r : mrd) : code * jv * mrd :=
+  if Lz then (TooDeep, JNull, r)
+  else
+    let '(e, l, r) := mp_object_loop pv' (clip_count size r) None [] r in
+    (e, JObj l, r).
+
+Definition hdr_then (w : nat) (r : mrd) (k : Z -> mrd -> code * jv * mrd) : code * jv * mrd :=
+  match read_n w r with
+  | (None, r) => (IncompleteInput, JNull, r)
+  | (Some hb, r) => k (be_value hb 0) r
+  end.
+
+(* fixstr / fixarray / fixmap: the size is in the code byte *)
+Definition fix_facts (base n : Z) (a m s : bool) : bool :=
+  let c := base + n in
+  negb (early c) && Nat.eqb (size_bytes_of c) 0 && (size0_of c =? n)
+  && Bool.eqb (is_arr_code c) a && Bool.eqb (is_map_code c) m && Bool.eqb (is_str_code c) s.
+
+Lemma fix_facts_elim : forall base n a m s, fix_facts base n a m s = true ->
+  let c := base + n in
+  early c = false /\ size_bytes_of c = 0%nat /\ size0_of c = n /\
+  is_arr_code c = a /\ is_map_code c = m /\ is_str_code c = s.
+Proof.
+  intros base n a m s H c. unfold fix_facts in H. fold c in H.
+  apply andb_prop in H as [H H6]. apply andb_prop in H as [H H5]. apply andb_prop in H as [H H4].
+  apply andb_prop in H as [H H3]. apply andb_prop in H as [H1 H2].
+  apply negb_true_iff in H1. apply Nat.eqb_eq in H2. apply Z.eqb_eq in H3.
+  apply Bool.eqb_prop in H4. apply Bool.eqb_prop in H5. apply Bool.eqb_prop in H6. auto 10.
+Qed.
+
+Lemma fixstr_facts : forall n, 0 <= n < 32 -> fix_facts 0xA0 n false false true = true.
+Proof.
+  intros n H. apply (zall_spec 32 0 (fun n => fix_facts 0xA0 n false false true)); [|lia].
+  vm_compute. reflexivity.
+Qed.
+
+Lemma fixarr_facts : forall n, 0 <= n < 16 -> fix_facts 0x90 n true false false = true.
+Proof.
+  intros n H. apply (zall_spec 16 0 (fun n => fix_facts 0x90 n true false false)); [|lia].
+  vm_compute. reflexivity.
+Qed.
+
+Lemma fixmap_facts : forall n, 0 <= n < 16 -> fix_facts 0x80 n false true false = true.
+Proof.
+  intros n H. apply (zall_spec 16 0 (fun n => fix_facts 0x80 n false true false)); [|lia].
+  vm_compute. reflexivity.
+Qed.
+
+Lemma body_fixstr : forall cf pv' Lz n rest k, 0 <= n < 32 ->
+  mp_body cf pv' Lz None (mk (bz (0xA0 + n) :: rest) k) = str_payload n (mk rest (k + 1)).
+Proof.
+  intros cf pv' Lz n rest k H.
+  destruct (fix_facts_elim _ _ _ _ _ (fixstr_facts n H)) as (F1 & F2 & F3 & F4 & F5 & F6).
+  cbv zeta in *.
+  assert (Hb : Z.of_N (bz (0xA0 + n)) = 0xA0 + n) by (apply bz_id; lia).
+  rewrite body_tail by (rewrite Hb; exact F1).
+  unfold mp_tail. cbv zeta. rewrite Hb, F2, F3, F4, F5, F6. cbn [Nat.eqb f_allow_value].
+  reflexivity.
+Qed.
+
+Lemma body_fixarr : forall cf pv' Lz n rest k, 0 <= n < 16 ->
+  mp_body cf pv' Lz None (mk (bz (0x90 + n) :: rest) k) = arr_payload pv' Lz n (mk rest (k + 1)).
+Proof.
+  intros cf pv' Lz n rest k H.
+  destruct (fix_facts_elim _ _ _ _ _ (fixarr_facts n H)) as (F1 & F2 & F3 & F4 & F5 & F6).
+  cbv zeta in *.
+  assert (Hb : Z.of_N (bz (0x90 + n)) = 0x90 + n) by (apply bz_id; lia).
+  rewrite body_tail by (rewrite Hb; exact F1).
+  unfold mp_tail. cbv zeta. rewrite Hb, F2, F3, F4. cbn [Nat.eqb f_allow_array f_element].
+  reflexivity.
+Qed.
+
+Lemma body_fixmap : forall cf pv' Lz n rest k, 0 <= n < 16 ->
+  mp_body cf pv' Lz None (mk (bz (0x80 + n) :: rest) k) = map_payload pv' Lz n (mk rest (k + 1)).
+Proof.
+  intros cf pv' Lz n rest k H.
+  destruct (fix_facts_elim _ _ _ _ _ (fixmap_facts n H)) as (F1 & F2 & F3 & F4 & F5 & F6).
+  cbv zeta in *.
+  assert (Hb : Z.of_N (bz (0x80 + n)) = 0x80 + n) by (apply bz_id; lia).
+  rewrite body_tail by (rewrite Hb; exact F1).
+  unfold mp_tail. cbv zeta. rewrite Hb, F2, F3, F4, F5. cbn [Nat.eqb f_allow_object].
+  reflexivity.
+Qed.
+
+(* str 8/16/32, array 16/32, map 16/32: the size follows the code byte *)
+Lemma body_str8 : forall cf pv' Lz rest k,
+  mp_body cf pv' Lz None (mk (bz 0xD9 :: rest) k) = hdr_then 1 (mk rest (k + 1)) str_payload.
+Proof. reflexivity. Qed.
+Lemma body_str16 : forall cf pv' Lz rest k,
+  mp_body cf pv' Lz None (mk (bz 0xDA :: rest) k) = hdr_then 2 (mk rest (k + 1)) str_payload.
+Proof. reflexivity. Qed.
+Lemma body_str32 : forall cf pv' Lz rest k,
+  mp_body cf pv' Lz None (mk (bz 0xDB :: rest) k) = hdr_then 4 (mk rest (k + 1)) str_payload.
+Proof. reflexivity. Qed.
+Lemma body_arr16 : forall cf pv' Lz rest k,
+  mp_body cf pv' Lz None (mk (bz 0xDC :: rest) k) = hdr_then 2 (mk rest (k + 1)) (arr_payload pv' Lz).
+Proof. reflexivity. Qed.
+Lemma body_arr32 : forall cf pv' Lz rest k,
+  mp_body cf pv' Lz None (mk (bz 0xDD :: rest) k) = hdr_then 4 (mk rest (k + 1)) (arr_payload pv' Lz).
+Proof. reflexivity. Qed.
+Lemma body_map16 : forall cf pv' Lz rest k,
+  mp_body cf pv' Lz None (mk (bz 0xDE :: rest) k) = hdr_then 2 (mk rest (k + 1)) (map_payload pv' Lz).
+Proof. reflexivity. Qed.
+Lemma body_map32 : forall cf pv' Lz rest k,
+  mp_body cf pv' Lz None (mk (bz 0xDF :: rest) k) = hdr_then 4 (mk rest (k + 1)) (map_payload pv' Lz).
+Proof. reflexivity. Qed.
